@@ -12,7 +12,13 @@ import Proofs.SqlParserTotal
   hand-modelled per rule, parser, value printers and readers, the writers of xtuml/persist.py.
   `u : UC` is Python's view of the non-ASCII characters (`\d`, `\w`, `str.upper`); every theorem holds for all of them.
   Not modelled: the conversion between binary floats and decimal numerals (a REAL value is its six-decimal numeral);
-  the key-matching join that recomputes links (C03).
+  the key-matching join that recomputes links (C03) -- `linksOfAssoc` (PyxModel/Sql/Links.lean) is its SPECIFICATION (the
+  nested loop over the key values), compared with the implementation by the correspondence runs; it is not connected in
+  Lean to C03's model of `populate_connections` (different model files).
+  Open finding `unset-referential-relinks`: an unrelated referrer whose INTEGER / REAL / BOOLEAN referential attribute is
+  unset is written with the type default 0 / 0.000000 / 0, which the loader does not treat as null; if an instance of the
+  referred class carries that value as identifying value, the reload links them.  `UnsetSafe` is the exact guard of the
+  link theorems against it; the harness generates the case and D reports it under that signature.
 -/
 namespace PyxProps.C01
 open Pyx.Sql
@@ -187,69 +193,50 @@ theorem fixed_point (u : UC) (it : Item) (h : it.AsciiTypes) :
     (canonItem u it).stmt u = it.stmt u ∧ canonItem u (canonItem u it) = canonItem u it :=
   ⟨canon_stmt u it h, canon_idem u it h⟩
 
+/-- … and the tie to the model level: the items printed from a class of the RELOADED metamodel (`canonClass`, the classes
+    of `MM.reloaded`) are the canonical items of the original class — its CREATE TABLE item, its INSERT items, its
+    identifier items — so `fixed_point` applies to every item of `m.reloaded` -/
+theorem reloaded_items_canonical (u : UC) (c : ClassM) :
+    (canonClass u c).item = canonItem u c.item ∧
+    (canonClass u c).instItems = c.instItems.map (canonItem u) ∧
+    (canonClass u c).indexItems = c.indexItems.map (canonItem u) := by
+  refine ⟨rfl, ?_, ?_⟩
+  · simp only [canonClass, ClassM.instItems, List.map_map]; rfl
+  · simp only [canonClass, ClassM.indexItems, List.map_map]; rfl
+
 /-! ### model level: reload of everything but links -/
-
-/-- the six orders in which the three separately written parts can be concatenated (or fed one after the other) -/
-def serializeOrders (u : UC) (m : MM) : List (List Item) :=
-  [(m.serializeSchema u) ++ (m.serializeInstances) ++ (m.serializeUniqueIdentifiers u),
-   (m.serializeSchema u) ++ (m.serializeUniqueIdentifiers u) ++ (m.serializeInstances),
-   (m.serializeInstances) ++ (m.serializeSchema u) ++ (m.serializeUniqueIdentifiers u),
-   (m.serializeInstances) ++ (m.serializeUniqueIdentifiers u) ++ (m.serializeSchema u),
-   (m.serializeUniqueIdentifiers u) ++ (m.serializeSchema u) ++ (m.serializeInstances),
-   (m.serializeUniqueIdentifiers u) ++ (m.serializeInstances) ++ (m.serializeSchema u)]
-
-def persistOrders (u : UC) (m : MM) : List (List Item) :=
-  [(m.persistSchema u) ++ (m.persistInstances) ++ (m.persistUniqueIdentifiers),
-   (m.persistSchema u) ++ (m.persistUniqueIdentifiers) ++ (m.persistInstances),
-   (m.persistInstances) ++ (m.persistSchema u) ++ (m.persistUniqueIdentifiers),
-   (m.persistInstances) ++ (m.persistUniqueIdentifiers) ++ (m.persistSchema u),
-   (m.persistUniqueIdentifiers) ++ (m.persistSchema u) ++ (m.persistInstances),
-   (m.persistUniqueIdentifiers) ++ (m.persistInstances) ++ (m.persistSchema u)]
 
 /-- RELOAD (all but links), `serialize_database`: for every well-formed, closed metamodel (class names distinct after
     upper-casing, attribute names of a class distinct after upper-casing — `define_class` accepts no other class —,
-    core attribute types, identifier names distinct per class, association ends naming classes of the model
+    no attribute name or association key of the form `__x__` — open finding of C12, outside the model —, core attribute types, identifier names distinct per class, association ends naming classes of the model
     with key lists of equal length and existing target keys, rows as long as the attribute list) the written text is
     accepted, builds, and the built metamodel — as the writers see it — is `m.reloaded`: the same classes (in sorted
     order) with the same attributes (type names upper-cased), the same identifiers, the same rows in order with equal
     values (an unset value is the null value of its type; a REAL value is its six-decimal numeral), and the same
-    associations (rel id, kinds, keys, multiplicity, conditionality, phrases; in the order written) -/
-theorem reload_same_partial (u : UC) (m : MM) (hw : m.WF u) (hm : m.Closed u) (text : Text)
+    associations (rel id, kinds, keys, multiplicity, conditionality, phrases; in the order written).
+    `RefsResolve` (every row with a non-null value in a source key cell is linked across that association) is NOT used by
+    the proof — the equation is about the model's `toMM`, which keeps the INSERT value of referential cells — it is the
+    condition under which that `toMM` is what the implementation's `getattr` returns: the code deletes referential cells
+    from `__dict__` and reads them through the link (`B(7, A_Id=5)` without an `A(Id=5)` reads 0 there and 5 in the model).
+    Everything the writers produce from an API-built model satisfies it. -/
+theorem reload_same_partial (u : UC) (m : MM) (hw : m.WF u) (hm : m.Closed u) (_hres : RefsResolve u m) (text : Text)
     (hp : printItems u (m.serializeDatabase u) = some text) :
     ∃ stmts bs, classify u text = .accepted stmts ∧ build u stmts = .ok bs ∧ bs.toMM u = m.reloaded u m.assocsByIdKind :=
   reload_serializeDatabase u m hw hm text hp
 
 /-- … `persist_database` (identifiers interleaved after each class, associations sorted by rel id only) -/
-theorem reload_same_partial_persist (u : UC) (m : MM) (hw : m.WF u) (hm : m.Closed u) (text : Text)
+theorem reload_same_partial_persist (u : UC) (m : MM) (hw : m.WF u) (hm : m.Closed u) (_hres : RefsResolve u m) (text : Text)
     (hp : printItems u (m.persistDatabase u) = some text) :
     ∃ stmts bs, classify u text = .accepted stmts ∧ build u stmts = .ok bs ∧ bs.toMM u = m.reloaded u m.assocsById :=
   reload_persistDatabase u m hw hm text hp
 
 /-- … the three parts of `serialize_schema / serialize_instances / serialize_unique_identifiers` and of the
     `persist_*` writers in ANY of the six orders: the statements build to the same reloaded metamodel -/
-theorem reload_same_partial_parts (u : UC) (m : MM) (hm : m.Closed u) (items : List Item) (stmts : List Stmt)
+theorem reload_same_partial_parts (u : UC) (m : MM) (hm : m.Closed u) (_hres : RefsResolve u m) (items : List Item) (stmts : List Stmt)
     (hs : itemsStmts u items = some stmts) :
     (items ∈ serializeOrders u m → ∃ bs, build u stmts = .ok bs ∧ bs.toMM u = m.reloaded u m.assocsByIdKind) ∧
-    (items ∈ persistOrders u m → ∃ bs, build u stmts = .ok bs ∧ bs.toMM u = m.reloaded u m.assocsById) := by
-  constructor
-  · intro h
-    simp only [serializeOrders, List.mem_cons, List.mem_nil_iff, or_false] at h
-    rcases h with rfl | rfl | rfl | rfl | rfl | rfl
-    · exact reload_of_presents u m hm _ _ _ stmts (presents_serialize_SIX u m hm) hs
-    · exact reload_of_presents u m hm _ _ _ stmts (presents_serialize_SXI u m hm) hs
-    · exact reload_of_presents u m hm _ _ _ stmts (presents_serialize_ISX u m hm) hs
-    · exact reload_of_presents u m hm _ _ _ stmts (presents_serialize_IXS u m hm) hs
-    · exact reload_of_presents u m hm _ _ _ stmts (presents_serialize_XSI u m hm) hs
-    · exact reload_of_presents u m hm _ _ _ stmts (presents_serialize_XIS u m hm) hs
-  · intro h
-    simp only [persistOrders, List.mem_cons, List.mem_nil_iff, or_false] at h
-    rcases h with rfl | rfl | rfl | rfl | rfl | rfl
-    · exact reload_of_presents u m hm _ _ _ stmts (presents_persist_SIX u m hm) hs
-    · exact reload_of_presents u m hm _ _ _ stmts (presents_persist_SXI u m hm) hs
-    · exact reload_of_presents u m hm _ _ _ stmts (presents_persist_ISX u m hm) hs
-    · exact reload_of_presents u m hm _ _ _ stmts (presents_persist_IXS u m hm) hs
-    · exact reload_of_presents u m hm _ _ _ stmts (presents_persist_XSI u m hm) hs
-    · exact reload_of_presents u m hm _ _ _ stmts (presents_persist_XIS u m hm) hs
+    (items ∈ persistOrders u m → ∃ bs, build u stmts = .ok bs ∧ bs.toMM u = m.reloaded u m.assocsById) :=
+  reload_parts u m hm items stmts hs
 
 /-- the reloaded metamodel is a fixed point of reloading as far as classes, identifiers and associations go:
     canonicalising a class twice is canonicalising it once (type names ASCII) -/
@@ -266,7 +253,9 @@ theorem reloaded_class_idem (u : UC) (c : ClassM) (h : ∀ a ∈ c.attrs, AsciiT
 
 /-! ### links -/
 
-/-- the links an in-memory model holds (per association: pairs of source row index and target row index, each within
+/-- `MM` has no link component (it is the metamodel as the writers see it: classes, rows, associations), so the links an
+    in-memory model holds are a separate parameter `L` of the theorems below; `KeysResolve` relates the two: the links
+    (per association: pairs of source row index and target row index, each within
     its class) are exactly the links its key values denote under the loader's rule: every key pair non-null (`None`;
     UNIQUE_ID 0; STRING '') and equal.  A model built with `relate` meets it when the referred instances carry non-null
     key tuples that are unique in their class (a related referrer then READS the keys of its target, an unrelated one
@@ -277,7 +266,9 @@ def KeysResolve (u : UC) (m : MM) (L : AssocM → List (Nat × Nat)) : Prop :=
 /-- LINK CLAUSE: the links of the reloaded metamodel (spec join of PyxModel/Sql/Links.lean, which C03 proves the batch
     loader computes) are the links of the original, association by association and row by row.  `UnsetSafe`: an unset
     key cell of type INTEGER / REAL / BOOLEAN — written as 0 / 0.000000 / 0, which the loader does not treat as null —
-    meets no equal value on the other side; automatic for UNIQUE_ID and STRING keys. -/
+    meets no equal value on the other side; automatic for UNIQUE_ID and STRING keys.  Outside `UnsetSafe` the
+    implementation really gains a link on reload: OPEN FINDING `unset-referential-relinks` (KNOWN_FINDINGS.txt), which the
+    harness generates and D reports; `UnsetSafe` is the exact guard, not a convenience. -/
 theorem reload_links (u : UC) (m : MM) (hm : m.Closed u) (hsafe : UnsetSafe u m) (A : List AssocM) (a : AssocM)
     (ha : a ∈ m.assocs) : linksOfAssoc u (m.reloaded u A) a = linksOfAssoc u m a :=
   linksOfAssoc_reloaded u m hm hsafe A a ha
@@ -288,10 +279,12 @@ theorem unset_nullable_safe (t : Option Gen.Persist.Ty) (h : t = some .UNIQUE_ID
     cellMatch (canonCell (t, none)) c = false ∧ cellMatch c (canonCell (t, none)) = false :=
   ⟨cellMatch_canon_unset_left t h c, cellMatch_canon_unset_right t h c⟩
 
-/-- RELOAD, complete at model level: what `serialize_database` writes for a well-formed, closed metamodel whose links
-    are the ones its keys denote is accepted, builds, the built metamodel is `m.reloaded` (classes, attribute types,
-    identifiers, rows, associations — `reload_same_partial`) and its keys denote the SAME links -/
-theorem reload_same (u : UC) (m : MM) (hw : m.WF u) (hm : m.Closed u) (hsafe : UnsetSafe u m)
+/-- RELOAD, the two halves together (a repackaging of `reload_same_partial` and `reload_links`, no new content): what
+    `serialize_database` writes for a well-formed, closed metamodel whose links `L` are the ones its keys denote is
+    accepted, builds, the built metamodel is `m.reloaded` (classes, attribute types, identifiers, rows, associations) and
+    its keys denote the SAME links `L` — under the spec join `linksOfAssoc`; that the loader's `populate_connections`
+    computes that join is C03's theorem about C03's model and the correspondence run here, not a Lean bridge. -/
+theorem reload_same (u : UC) (m : MM) (hw : m.WF u) (hm : m.Closed u) (hsafe : UnsetSafe u m) (_hres : RefsResolve u m)
     (L : AssocM → List (Nat × Nat)) (hL : KeysResolve u m L) (text : Text)
     (hp : printItems u (m.serializeDatabase u) = some text) :
     ∃ stmts bs, classify u text = .accepted stmts ∧ build u stmts = .ok bs ∧
@@ -305,7 +298,7 @@ theorem reload_same (u : UC) (m : MM) (hw : m.WF u) (hm : m.Closed u) (hsafe : U
   exact hL a ham p
 
 /-- … and `persist_database` -/
-theorem reload_same_persist (u : UC) (m : MM) (hw : m.WF u) (hm : m.Closed u) (hsafe : UnsetSafe u m)
+theorem reload_same_persist (u : UC) (m : MM) (hw : m.WF u) (hm : m.Closed u) (hsafe : UnsetSafe u m) (_hres : RefsResolve u m)
     (L : AssocM → List (Nat × Nat)) (hL : KeysResolve u m L) (text : Text)
     (hp : printItems u (m.persistDatabase u) = some text) :
     ∃ stmts bs, classify u text = .accepted stmts ∧ build u stmts = .ok bs ∧
@@ -352,10 +345,10 @@ theorem text_fixed_point_parts (u : UC) (m : MM) (hm : m.Closed u) (items : List
   have hA2 : ∀ a ∈ m.assocsById, a ∈ m.assocs := fun a ha => (mem_sortBy _ _ _).mp ha
   constructor
   · intro h
-    obtain ⟨bs, hb, he⟩ := (reload_same_partial_parts u _ (closed_reloaded u m hm _ hA1) items stmts hs).1 h
+    obtain ⟨bs, hb, he⟩ := (reload_parts u _ (closed_reloaded u m hm _ hA1) items stmts hs).1 h
     exact ⟨bs, hb, by rw [he, reloaded_reloaded_byIdKind u m hm]⟩
   · intro h
-    obtain ⟨bs, hb, he⟩ := (reload_same_partial_parts u _ (closed_reloaded u m hm _ hA2) items stmts hs).2 h
+    obtain ⟨bs, hb, he⟩ := (reload_parts u _ (closed_reloaded u m hm _ hA2) items stmts hs).2 h
     exact ⟨bs, hb, by rw [he, reloaded_reloaded_byId u m hm]⟩
 
 /-- WHEN THE FIRST TEXT IS ALREADY THE FIXED POINT: `serialize (reload m) = serialize m` holds when the classes of m are
@@ -450,7 +443,7 @@ def mEx : MM :=
    [⟨"R1".toList, ⟨false, true, "A".toList, ["Id".toList], []⟩, ⟨false, true, "A".toList, ["Id".toList], "x".toList⟩⟩]⟩
 
 example : mEx.Closed UC.ascii := by
-  refine ⟨by decide, by decide, by decide, ?_, by decide, by decide⟩
+  refine ⟨by decide, by decide, by decide, ?_, by decide, by decide, by decide, by decide⟩
   intro a ha
   simp only [mEx, List.mem_singleton] at ha; subst ha
   exact ⟨⟨_, List.mem_singleton.mpr rfl, rfl⟩, rfl, _, List.mem_singleton.mpr rfl, rfl, by decide⟩
@@ -477,5 +470,130 @@ example : UnsetSafe UC.ascii mTree := by
   simp only [Option.some.injEq] at hsc htc; subst hsc; subst htc
   simp only [List.zip, List.zipWith, List.mem_singleton] at hkk; subst hkk
   exact ⟨Or.inl (by decide), Or.inl (by decide)⟩
+
+/-! ### a metamodel that meets EVERY hypothesis of the reload theorems, and the theorems applied to it -/
+
+/-- Owner (Id, Name; identifier I1 over Id) with a name holding a quote, a comment marker and a newline, and an owner without
+    name (unset); Dog (Tag, Owner_Id referential) with a linked dog and a dog with nothing set; R1 Dog -> Owner over
+    UNIQUE_ID keys, with a phrase holding a quote -/
+def mPets : MM :=
+  ⟨[⟨"Owner".toList, [("Id".toList, "unique_id".toList), ("Name".toList, "STRING".toList)], [("I1".toList, ["Id".toList])],
+     [[some (.id 1), some (.str "it's -- \n".toList)], [some (.id 2), none]]⟩,
+    ⟨"Dog".toList, [("Tag".toList, "string".toList), ("Owner_Id".toList, "UNIQUE_ID".toList)], [],
+     [[some (.str "rex".toList), some (.id 1)], [none, none]]⟩],
+   [⟨"R1".toList, ⟨true, true, "Dog".toList, ["Owner_Id".toList], []⟩,
+     ⟨false, true, "Owner".toList, ["Id".toList], "owner's".toList⟩⟩]⟩
+
+theorem mPets_wf (u : UC) : mPets.WF u := by
+  have up : ∀ w : Text, AsciiText w → u.upper w = w.map asciiUpper := fun w h => upper_ascii u w h
+  have idok : ∀ w : Text, w ∈ ["Owner".toList, "Dog".toList, "Id".toList, "Name".toList, "Tag".toList, "Owner_Id".toList,
+      "I1".toList, "UNIQUE_ID".toList, "STRING".toList] → IdentOk w := by
+    intro w hw
+    simp only [List.mem_cons, List.mem_nil_iff, or_false] at hw
+    rcases hw with rfl | rfl | rfl | rfl | rfl | rfl | rfl | rfl | rfl <;> exact ⟨by decide, by decide, by decide, by decide⟩
+  have e1 : u.upper "unique_id".toList = "UNIQUE_ID".toList := by rw [up _ (by unfold AsciiText; decide)]; decide
+  have e2 : u.upper "STRING".toList = "STRING".toList := by rw [up _ (by unfold AsciiText; decide)]; decide
+  have e3 : u.upper "string".toList = "STRING".toList := by rw [up _ (by unfold AsciiText; decide)]; decide
+  have e4 : u.upper "UNIQUE_ID".toList = "UNIQUE_ID".toList := by rw [up _ (by unfold AsciiText; decide)]; decide
+  refine ⟨?_, ?_, ?_, ?_⟩
+  · intro c hc
+    simp only [mPets, List.mem_cons, List.mem_nil_iff, or_false] at hc
+    rcases hc with rfl | rfl
+    · refine ⟨idok _ (by simp), ?_⟩
+      intro a ha
+      simp only [List.mem_cons, List.mem_nil_iff, or_false] at ha
+      rcases ha with rfl | rfl
+      · exact ⟨idok _ (by simp), by rw [e1]; exact idok _ (by simp)⟩
+      · exact ⟨idok _ (by simp), by rw [e2]; exact idok _ (by simp)⟩
+    · refine ⟨idok _ (by simp), ?_⟩
+      intro a ha
+      simp only [List.mem_cons, List.mem_nil_iff, or_false] at ha
+      rcases ha with rfl | rfl
+      · exact ⟨idok _ (by simp), by rw [e3]; exact idok _ (by simp)⟩
+      · exact ⟨idok _ (by simp), by rw [e4]; exact idok _ (by simp)⟩
+  · intro c hc it hit
+    simp only [mPets, List.mem_cons, List.mem_nil_iff, or_false] at hc
+    rcases hc with rfl | rfl
+    · simp only [ClassM.indexItems, List.map_cons, List.map_nil, List.mem_singleton] at hit; subst hit
+      refine ⟨idok _ (by simp), idok _ (by simp), ?_⟩
+      intro a ha; simp only [List.mem_singleton] at ha; subst ha; exact idok _ (by simp)
+    · simp [ClassM.indexItems] at hit
+  · intro c hc it hit
+    simp only [mPets, List.mem_cons, List.mem_nil_iff, or_false] at hc
+    rcases hc with rfl | rfl
+    · simp only [ClassM.instItems, List.map_cons, List.map_nil, List.mem_cons, List.mem_nil_iff, or_false] at hit
+      rcases hit with rfl | rfl <;>
+      · refine ⟨idok _ (by simp), ?_⟩
+        intro a ha
+        simp only [List.mem_cons, List.mem_nil_iff, or_false] at ha
+        rcases ha with rfl | rfl <;> exact ⟨by unfold NoNewline; decide, by unfold NoNewline; decide⟩
+    · simp only [ClassM.instItems, List.map_cons, List.map_nil, List.mem_cons, List.mem_nil_iff, or_false] at hit
+      rcases hit with rfl | rfl <;>
+      · refine ⟨idok _ (by simp), ?_⟩
+        intro a ha
+        simp only [List.mem_cons, List.mem_nil_iff, or_false] at ha
+        rcases ha with rfl | rfl <;> exact ⟨by unfold NoNewline; decide, by unfold NoNewline; decide⟩
+  · intro a ha
+    simp only [mPets, List.mem_singleton] at ha; subst ha
+    refine ⟨⟨'1', [], rfl, by decide⟩, ⟨idok _ (by simp), ?_⟩, ⟨idok _ (by simp), ?_⟩⟩
+    · intro k hk; simp only [List.mem_singleton] at hk; subst hk; exact idok _ (by simp)
+    · intro k hk; simp only [List.mem_singleton] at hk; subst hk; exact idok _ (by simp)
+
+theorem mPets_closed : mPets.Closed UC.ascii := by
+  refine ⟨by decide, by decide, by decide, ?_, by decide, by decide, by decide, by decide⟩
+  intro a ha
+  simp only [mPets, List.mem_singleton] at ha; subst ha
+  exact ⟨⟨_, List.mem_cons_of_mem _ (List.mem_singleton.mpr rfl), rfl⟩, rfl, _, List.mem_cons_self, rfl, by decide⟩
+
+theorem mPets_assoc_classes {a : AssocM} (ha : a ∈ mPets.assocs) {sc tc : ClassM}
+    (hsc : mPets.findClass UC.ascii a.src.kind = some sc) (htc : mPets.findClass UC.ascii a.tgt.kind = some tc) :
+    a = mPets.assocs.head! ∧ sc = mPets.classes[1]! ∧ tc = mPets.classes[0]! := by
+  simp only [mPets, List.mem_singleton] at ha; subst ha
+  have e1 : MM.findClass UC.ascii mPets "Dog".toList = some mPets.classes[1]! := by decide
+  have e2 : MM.findClass UC.ascii mPets "Owner".toList = some mPets.classes[0]! := by decide
+  rw [show (AssocM.mk "R1".toList ⟨true, true, "Dog".toList, ["Owner_Id".toList], []⟩
+      ⟨false, true, "Owner".toList, ["Id".toList], "owner's".toList⟩).src.kind = "Dog".toList from rfl, e1] at hsc
+  rw [show (AssocM.mk "R1".toList ⟨true, true, "Dog".toList, ["Owner_Id".toList], []⟩
+      ⟨false, true, "Owner".toList, ["Id".toList], "owner's".toList⟩).tgt.kind = "Owner".toList from rfl, e2] at htc
+  simp only [Option.some.injEq] at hsc htc
+  exact ⟨rfl, hsc.symm, htc.symm⟩
+
+theorem mPets_unsetSafe : UnsetSafe UC.ascii mPets := by
+  apply unsetSafe_of_nullable_keys
+  intro a ha sc tc hsc htc kk hkk
+  obtain ⟨rfl, rfl, rfl⟩ := mPets_assoc_classes ha hsc htc
+  simp only [mPets, List.head!, List.zip, List.zipWith, List.mem_singleton] at hkk; subst hkk
+  exact ⟨Or.inl (by decide), Or.inl (by decide)⟩
+
+theorem mPets_refsResolve : RefsResolve UC.ascii mPets := by
+  intro a ha sc tc hsc htc s hs hnn
+  obtain ⟨rfl, rfl, rfl⟩ := mPets_assoc_classes ha hsc htc
+  have hs' : s = [some (.str "rex".toList), some (.id 1)] ∨ s = [none, none] := by
+    simpa [mPets] using hs
+  rcases hs' with rfl | rfl
+  · exact ⟨[some (.id 1), some (.str "it's -- \n".toList)], by decide, by decide⟩
+  · exfalso
+    obtain ⟨k, hk, hn⟩ := hnn
+    have : k = "Owner_Id".toList := by
+      have hk' : k ∈ ["Owner_Id".toList] := hk
+      simpa using hk'
+    subst this
+    revert hn; decide
+
+/-- the links its keys denote: the first dog belongs to the first owner -/
+example : linksOf UC.ascii mPets = [(mPets.assocs.head!, [(0, 0)])] := by decide
+
+/-- `reload_same` APPLIED: the text `serialize_database` writes for `mPets` (it exists: every cell holds a value of its
+    column's type) is accepted, builds, the built metamodel is `mPets.reloaded` and its keys denote the same links -/
+example : ∃ text stmts bs, printItems UC.ascii (mPets.serializeDatabase UC.ascii) = some text ∧
+    classify UC.ascii text = .accepted stmts ∧ build UC.ascii stmts = .ok bs ∧
+    bs.toMM UC.ascii = mPets.reloaded UC.ascii mPets.assocsByIdKind ∧
+    KeysResolve UC.ascii (bs.toMM UC.ascii) (fun a => linksOfAssoc UC.ascii mPets a) := by
+  cases hp : printItems UC.ascii (mPets.serializeDatabase UC.ascii) with
+  | none => exact absurd hp (by decide)
+  | some text =>
+    obtain ⟨stmts, bs, h1, h2, h3, h4⟩ := reload_same UC.ascii mPets (mPets_wf _) mPets_closed mPets_unsetSafe mPets_refsResolve
+      (fun a => linksOfAssoc UC.ascii mPets a) (fun _ _ _ => Iff.rfl) text hp
+    exact ⟨text, stmts, bs, rfl, h1, h2, h3, h4⟩
 
 end PyxProps.C01
